@@ -426,6 +426,14 @@ func (g *recState) do(c gengo.Context, pkg, typ string, isAlias bool) error {
 			c.Defer(func(c gengo.Context) error { render(c, fmt.Sprintf("// deferred %s %s\n", g.name, typ)); return nil })
 		case 'e':
 			c.Defer(func(c gengo.Context) error { return errors.New("boom") })
+		case 'q':
+			c.Defer(func(c gengo.Context) error {
+				var m map[string]int
+				m[typ] = 1 // the deferred callback dies with a run-time panic
+				return nil
+			})
+		case 'k':
+			c.Defer(func(c gengo.Context) error { os.Exit(97); return nil })
 		}
 	}
 	switch code[0] {
@@ -1101,6 +1109,11 @@ func runKillScenario(s *PScn) (*POut, *POut) {
 	}
 	n := cloneScn(*s)
 	n.Kill, n.Root, n.Reuse = "", root, true
+	for key, v := range n.Reacts {
+		if len(v) > 2 && v[2] == 'k' {
+			n.Reacts[key] = v[:2] + "-" // the next run has no kill point any more
+		}
+	}
 	next := runScenarios([]*PScn{&n}, 1)[0]
 	return out, next
 }
